@@ -1,6 +1,6 @@
 (* C18 — Elements search visits every existing element once in id-slot order.
    Pinned statements only; proofs live in theories/ElementsSearchProofs.v (search part)
-   and theories/GraphProofs.v (graph part).
+   and theories/GraphSpec.v, ElementsGraphProofs.v (graph part, at the end of this file).
 
    SEARCH PART.  The elements search (graph_search/element_search.rs, model:
    Search.elements_search) walks the list `elements (gr d)` from the front; the
@@ -187,4 +187,75 @@ Example C18_nonvacuous :
 Proof. vm_compute. repeat split; reflexivity. Qed.
 Print Assumptions C18_nonvacuous.
 
-(* GRAPH PART: added by the graph prover below *)
+(* GRAPH PART (theories/GraphSpec.v, ElementsGraphProofs.v, GraphC08.v).
+   `elements g` is the model of GraphIterator / next_element.  "existing element" is
+   `graph_index g i = true` (DbImpl::graph_index: the sign of the id selects the node / edge check).
+   The first six statements hold for EVERY graph value, by the definition of the iteration alone;
+   C18_elements_abstract ties them to the abstract multigraph of C08 on every reachable graph. *)
+From Agdb Require Import GraphArr GraphSim GraphProofs GraphSpec GraphC08 ElementsGraphProofs.
+
+(* exactly the existing nodes and edges, with the sign of their kind *)
+Theorem C18_elements_exact :
+  forall (g : graph) (i : Z), In i (elements g) <-> graph_index g i = true.
+Proof. exact elements_in. Qed.
+Print Assumptions C18_elements_exact.
+
+(* in strictly increasing magnitude of the ids (= slot order), hence each once *)
+Theorem C18_elements_sorted :
+  forall g : graph, StronglySorted (fun x y => Z.abs x < Z.abs y) (elements g).
+Proof. exact elements_sorted. Qed.
+Print Assumptions C18_elements_sorted.
+
+Theorem C18_elements_nodup : forall g : graph, NoDup (elements g).
+Proof. exact elements_nodup. Qed.
+Print Assumptions C18_elements_nodup.
+
+(* every existing element is visited at exactly one position, earlier positions have smaller |id| *)
+Theorem C18_elements_once :
+  forall (g : graph) (i : Z), graph_index g i = true ->
+    exists n, nth_error (elements g) n = Some i /\ forall m, nth_error (elements g) m = Some i -> m = n.
+Proof. exact elements_once. Qed.
+Print Assumptions C18_elements_once.
+
+Theorem C18_elements_order :
+  forall (g : graph) (n m : nat) (x y : Z),
+    (n < m)%nat -> nth_error (elements g) n = Some x -> nth_error (elements g) m = Some y -> Z.abs x < Z.abs y.
+Proof. exact elements_order. Qed.
+Print Assumptions C18_elements_order.
+
+(* never a freed slot (from_meta < 0), never slot 0 or a slot beyond the arrays; nodes positive, edges negative *)
+Theorem C18_elements_not_freed :
+  forall (g : graph) (i : Z), In i (elements g) ->
+    (0 <= fmeta g i /\ i <> 0 /\ Z.abs i < capacity g) /\
+    ((0 < i /\ is_node g i = true) \/ (i < 0 /\ is_edge g i = true)).
+Proof. exact elements_not_freed_sign. Qed.
+Print Assumptions C18_elements_not_freed.
+
+(* on every graph related to an abstract multigraph (C08: every graph reachable by a history of
+   insertions and removals): exactly the abstract nodes and the abstract edge ids *)
+Theorem C18_elements_abstract :
+  forall g a fl i, sim g a fl -> (In i (elements g) <-> In i (a_nodes a) \/ In i (a_edge_ids a)).
+Proof. exact elements_abstract. Qed.
+Print Assumptions C18_elements_abstract.
+
+(* the elements search (default handler): element i at position n is returned iff the conditions
+   accept it at distance n; the result is an order-preserving selection of the iteration, hence in
+   strictly increasing |id|, duplicate-free, and consists of existing elements only *)
+Theorem C18_elements_search_result :
+  forall (rv : revision) (d : db) (conds : list cond),
+    let r := elements_search rv d conds HDefault in
+    (forall i, In i r <-> exists n, nth_error (elements (gr d)) n = Some i /\
+                                    sc_true (eval_conditions rv d i (Z.of_nat n) conds) = true) /\
+    sublist r (elements (gr d)) /\
+    StronglySorted (fun x y => Z.abs x < Z.abs y) r /\ NoDup r /\
+    (forall i, In i r -> graph_index (gr d) i = true).
+Proof. exact elements_search_result. Qed.
+Print Assumptions C18_elements_search_result.
+
+(* with any handler (limit / offset): only existing elements are ever returned — in particular
+   never a removed one (C08_db_cascade: a removed element is no longer `graph_index`) *)
+Theorem C18_elements_search_existing :
+  forall (rv : revision) (d : db) (conds : list cond) (h : handler_kind) (i : Z),
+    In i (elements_search rv d conds h) -> graph_index (gr d) i = true.
+Proof. exact elements_search_existing. Qed.
+Print Assumptions C18_elements_search_existing.
